@@ -29,3 +29,44 @@ Definition slice_spec (n : Z) (start stop step : option Z) : res (list Z) :=
 (* a second, pointwise reading of range(n)[start:stop:step]: membership *)
 Definition in_py_slice (n : Z) (start stop step : option Z) (j : Z) : Prop :=
   adj n start 0 <= j < adj n stop n /\ (j - adj n start 0) mod step_of step = 0.
+
+(* ---- "knows how many value outputs it has": the number of value outputs of an operation ----
+   = length of the output row of its dataflow signature.  For Call that signature is the polymorphic body
+   with the type arguments substituted: a row variable stands for as many types as its sequence argument
+   holds, so the count may be larger or smaller than the length of the body's output row.
+   None = the shape is ill-typed (variable index out of range or of the wrong kind). *)
+Definition item_len (args : list targ) (it : rowitem) : option Z :=
+  match it with
+  | RTy => Some 1
+  | RVar i => match nth_error args i with Some ATy => Some 1 | _ => None end
+  | RRow i => match nth_error args i with Some (ASeq len) => Some (Z.of_nat len) | _ => None end
+  end.
+Fixpoint inst_len (args : list targ) (row : list rowitem) : option Z :=
+  match row with
+  | [] => Some 0
+  | it :: r =>
+      match item_len args it, inst_len args r with
+      | Some a, Some b => Some (a + b)
+      | _, _ => None
+      end
+  end.
+Definition value_outputs (s : opshape) : option Z :=
+  match s with
+  | SSig _ nout => Some nout
+  | SUnpack k => Some k
+  | SPack _ => Some 1
+  | SUnary => Some 1
+  | SCall body_out args _ => inst_len args body_out
+  | SDfg outs => Some outs
+  | SLoop j r => Some (j + r)
+  end.
+(* guard: counts are lengths, and the instantiation handed to `call` is the substitution instance *)
+Definition shape_wf (s : opshape) : bool :=
+  match s with
+  | SSig nin nout => (0 <=? nin) && (0 <=? nout)
+  | SUnpack k | SPack k | SDfg k => 0 <=? k
+  | SUnary => true
+  | SCall body_out args inst_out =>
+      match inst_len args body_out with Some n => Z.eqb n inst_out | None => false end
+  | SLoop j r => (0 <=? j) && (0 <=? r)
+  end.
